@@ -364,6 +364,65 @@ func c20BlankDoneVsSetSource(w *fw.Worker, i int, r *fw.Rand) {
 	w.Distinct(fmt.Sprintf("blank-done-race|accepted|%v", got))
 }
 
+// c20EagerWSrc is a watcher that starts reporting as soon as its Watch method is entered (a resync goroutine), while
+// Watch itself takes a little longer to return.
+type c20EagerWSrc struct {
+	c20WSrc
+	next     *gen.Layer
+	reported chan error
+}
+
+func (s *c20EagerWSrc) Watch(ctx context.Context, t *dials.Type, wa dials.WatchArgs) error {
+	s.c20WSrc.Watch(ctx, t, wa)
+	go func() { s.reported <- s.report(s.next, true, nil) }()
+	time.Sleep(20 * time.Millisecond)
+	return nil
+}
+
+// c20BlankEagerWatcher: the value a watching inner source had when it was set must not overwrite what that watcher
+// reports once it is being watched - exactly as for a watcher given to Config directly.
+func c20BlankEagerWatcher(w *fw.Worker, i int, r *fw.Rand) {
+	leaves := c20Spec.LeafRefs()
+	c := &gen.Counter{}
+	native := &c10Chain{name: "none"}
+	desc := map[string]any{"mode": "blank-inner-watcher-reports-from-watch"}
+	ctx, cancel := context.WithCancel(context.Background())
+	defer cancel()
+	blank := &sourcewrap.Blank{}
+	d, err := dials.Config(ctx, &c20Cfg{A: -1, S: "dflt"}, blank)
+	if err != nil {
+		w.Violation(i, "config-error-with-blank", err.Error(), desc)
+		return
+	}
+	l1, l2 := c20Layer(r, c, native, leaves), c20Layer(r, c, native, leaves)
+	ws := &c20EagerWSrc{c20WSrc: c20WSrc{c20Src{cur: l1, watching: true}}, next: l2, reported: make(chan error, 1)}
+	if serr := blank.SetSource(ctx, ws); serr != nil {
+		w.Violation(i, "blank-setsource-failed", serr.Error(), desc)
+		return
+	}
+	select {
+	case rerr := <-ws.reported:
+		if rerr != nil {
+			w.Violation(i, "update-error-through-blank", rerr.Error(), desc)
+			return
+		}
+	case <-time.After(10 * time.Second):
+		w.Inconclusive(i, "the inner watcher's report did not return")
+		return
+	}
+	res, cerr := dials.VerifCompose(&c20Cfg{A: -1, S: "dflt"}, []reflect.Value{l2.Materialize(innerTypeOf(d))})
+	if cerr != nil {
+		return
+	}
+	w.Count("twin_views_compared", 1)
+	w.Count("blank_eager_watcher_cases", 1)
+	if df := gen.Diff(reflect.ValueOf(res).Elem(), reflect.ValueOf(*d.View())); df != "" {
+		w.Violation(i, "inner-watchers-update-overwritten-by-its-older-initial-value", "the view does not show what the inner watcher reported after it was set: "+df, desc)
+		return
+	}
+	w.Distinct("blank-eager-watcher")
+}
+
 // c20BlankReuse: a Blank that served one Dials (and was given a watching inner source) is handed to a second Config
 // after the first was shut down. The second Config may refuse it; if it accepts it, the wrapped watcher's updates must
 // reach the second config like a native watcher's would.
@@ -449,6 +508,8 @@ func runC20(w *fw.Worker) {
 			c20BlankDoneVsSetSource(w, i, r)
 		case i%24 == 13:
 			c20BlankReuse(w, i, r)
+		case i%24 == 19:
+			c20BlankEagerWatcher(w, i, r)
 		case i%24 == 7:
 			// a Done that expired undelivered does not use up the Blank's right (and duty) to forward the next one
 			blankDoneRetry(w, i, r, "C20")
